@@ -39,6 +39,19 @@ func TestC02(t *testing.T) {
 		}
 		c02ProgramGroup(r, gid)
 	}
+	// (c) a precompile credit inside a frame that fails, to an account the EVM first loads there and
+	// that becomes dirty later in the transaction: nothing may be minted (shared with C05)
+	idx := 0
+	for rep := 0; rep < r.Pick(6, 120); rep++ {
+		for _, endKind := range []string{"revert", "invalid", "out-of-gas"} {
+			id := fmt.Sprintf("lateload/%s/%d", endKind, rep)
+			idx++
+			if !r.Want(id, idx) {
+				continue
+			}
+			c05LateLoad(r, id, endKind)
+		}
+	}
 }
 
 type c02Case struct {
